@@ -109,11 +109,17 @@ Definition prop_ok (c : case) : bool :=
   match c with
   | CPred a b c p inside ccw _ _ =>
       (* what the algorithm relies on: for a clockwise triangle the answer is "strictly inside the circle",
-         judged by distances to the centre; the winding test is the sign of twice the signed area *)
+         judged by distances to the centre; the winding test is the sign of twice the signed area.  On the
+         zero sets (p exactly on the circle, corners on a line) either answer is compatible with the
+         statement — general position excludes them — so only corr_ok looks at them *)
       let '(a, b, c, p) := (qpt a, qpt b, qpt c, qpt p) in
-      Bool.eqb ccw (Qltb 0 (cross a b + cross b c + cross c a)) &&
+      let area2 := cross a b + cross b c + cross c a in
+      (if Qeq_bool area2 0 then true else Bool.eqb ccw (Qltb 0 area2)) &&
       (if Qltb (orient a b c) 0
-       then Bool.eqb inside (Qltb (dist2 p (centre a b c)) (dist2 a (centre a b c))) else true)
+       then let u := centre a b c in
+            if Qeq_bool (dist2 p u) (dist2 a u) then true
+            else Bool.eqb inside (Qltb (dist2 p u) (dist2 a u))
+       else true)
   | CTri _ spec cover _ pts tris pos _ alens after =>
       let q := qpts pts in
       (if spec then pos_okb pts pos && forallb (Nat.eqb (length pts)) alens && same_ptsb pts after &&
